@@ -74,7 +74,7 @@ def run(tier, scratch, record=False):
         params = dict(trace_dir=tdir, depths=[0, 1, 2, 3, 30], trace_depth=3, trace_every=3)
         max_events = 120000
     else:
-        params = dict(trace_dir=tdir, depths=[0, 1, 2, 3, 5, 30, 300, 1100], trace_depth=5, trace_every=1)
+        params = dict(trace_dir=tdir, depths=[0, 1, 2, 3, 5, 30, 300], trace_depth=5, trace_every=1)
         max_events = 1500000
     job = dict(prop=PROP, tier=tier, seed=vlib.seed(), params=params)
     out = vlib.run_workers(scratch, binary, RUNNER, job, case_timeout=120, total_timeout=3300 if tier == "thorough" else 900)
